@@ -271,6 +271,14 @@ pub fn c08_leaf(env: &mut Env, leaf: &Leaf) {
     env.stats.traces += 1;
     let dir = env.scratch2.path.clone();
     let mut faults = inplace_faults(&d);
+    for f in &d.frames {
+        for (patch, descr) in frame_faults(&d, f) {
+            if patch.len() >= 2 {
+                // the multi-site alterations only (single bytes are in the in-place menu already)
+                faults.push((patch, descr, false));
+            }
+        }
+    }
     // D7 predicate: the fault touches nothing but the 2-byte length field of a frame written by an
     // append whose payload is a frame / entry image
     for (patch, _, on_emb) in faults.iter_mut() {
@@ -389,6 +397,18 @@ fn frame_faults(d: &DmgImage, f: &FrameInfo) -> Vec<(Patch, serde_json::Value)> 
         v.push((vec![(f.file.clone(), f.offset, crc.clone())], json!({"kind":"frame-crc","file":f.file,"frame_offset":f.offset,"frame_len":f.len,"alteration":name,"frame_owner_op":f.op})));
         if f.len > 7 {
             v.push((vec![(f.file.clone(), f.offset, crc), (f.file.clone(), f.offset + 7, vec![0u8; f.len - 7])], json!({"kind":"frame-crc+payload","file":f.file,"frame_offset":f.offset,"frame_len":f.len,"alteration":format!("{}+payload-zeroed", name),"frame_owner_op":f.op})));
+        }
+    }
+    if f.len > 7 {
+        // checksum field overwritten together with one payload byte of the same frame
+        let last = f.offset + f.len - 1;
+        let first = f.offset + 7;
+        for (cname, crc) in [("crc-zeroed", vec![0u8; 4]), ("crc-ff", vec![0xFFu8; 4])] {
+            for (pname, off) in [("last-payload-byte+1", last), ("first-payload-byte+1", first)] {
+                if off < bytes.len() {
+                    v.push((vec![(f.file.clone(), f.offset, crc.clone()), (f.file.clone(), off, vec![bytes[off].wrapping_add(1)])], json!({"kind":"frame-crc+payload","file":f.file,"frame_offset":f.offset,"frame_len":f.len,"alteration":format!("{}+{}", cname, pname),"frame_owner_op":f.op})));
+                }
+            }
         }
     }
     if f.len > 7 {
